@@ -172,3 +172,91 @@ Definition rad_mc (G : cfg) : radii :=
   let h := MatchingCost.offset (g_w G) in mkRad h (h + dspan G) (h + dspan G).
 Definition rad_filter (w : Z) : radii := mkRad (w / 2) (w / 2) (w / 2).
 Definition rad_xcheck (G : cfg) : radii := mkRad 0 (dspan G) (dspan G).
+
+(* margin of cross-checking: the disparity span, and the window margin that mask_border paints *)
+Definition rad_xcheck_margin (G : cfg) : radii :=
+  let h := MatchingCost.offset (g_w G) in mkRad h (Z.max h (dspan G)) (Z.max h (dspan G)).
+
+(* ------------------------------------------------------------------ pipelines of the modelled steps *)
+
+Inductive step : Type :=
+| SMc (ssd : bool)
+| SWta (mx : bool) (invalid : option Q)
+| SRefine (me : Refine.method) (m : Refine.measure)
+| SMedian (w : Z)
+| SXcheck (thr : Q).
+
+(* what the steps share: the regenerated constants / flag sites, block sizes, the configuration *)
+Record env : Type := mkEnvL {
+  e_flags : Criteria.env; e_refine : Refine.consts; e_inv : Z;
+  e_bwta : Z; e_bmed : Z; e_cfg : cfg }.
+
+Definition step_op (V : env) (s : step) : op pix pix :=
+  match s with
+  | SMc ssd => mc_step ssd (e_flags V) (e_cfg V)
+  | SWta mx invalid => wta_step mx (e_bwta V) invalid (e_cfg V)
+  | SRefine me m => refine_step (e_refine V) me m (e_cfg V)
+  | SMedian w => median_step (e_inv V) (e_bmed V) w
+  | SXcheck thr => xcheck_step thr (e_cfg V)
+  end.
+
+(* data cone and margin of each step *)
+Definition step_D (G : cfg) (s : step) : radii :=
+  match s with
+  | SMc _ => rad_mc G
+  | SWta _ _ | SRefine _ _ => rad0
+  | SMedian w => rad_filter w
+  | SXcheck _ => rad_xcheck G
+  end.
+Definition step_M (G : cfg) (s : step) : radii :=
+  match s with
+  | SXcheck _ => rad_xcheck_margin G
+  | _ => step_D G s
+  end.
+Definition step_side (G : cfg) (s : step) : side pix :=
+  match s with
+  | SXcheck _ => fun F r c => px_ok G (f_at F r c)
+  | _ => no_side
+  end.
+
+(* cone and margin of a pipeline (first step first): cones add; the margin of "s then rest" is the larger
+   of the margin of rest and the cone of rest plus the margin of s *)
+Fixpoint pipe_rad (G : cfg) (steps : list step) : radii * radii :=
+  match steps with
+  | [] => (rad0, rad0)
+  | s :: rest => let '(Ds, Ms) := pipe_rad G rest in (radd Ds (step_D G s), rmax Ms (radd Ds (step_M G s)))
+  end.
+Fixpoint pipe_side (V : env) (steps : list step) : side pix :=
+  match steps with
+  | [] => no_side
+  | s :: rest => side_comp (step_side (e_cfg V) s) (step_op V s) (pipe_side V rest) (fst (pipe_rad (e_cfg V) rest))
+  end.
+
+(* ------------------------------------------------------------------ radii of every local step kind,
+   including those whose locality is not proved at model level (census, zncc: proved on the spec;
+   cbca, bilateral: compared by the metamorphic runs only): what the harness uses *)
+Inductive kstep : Type :=
+| KMc            (* any measure: window + disparity span *)
+| KCbca (dist : Z)     (* arms (at most cbca_distance) on the 3x3-median-filtered images *)
+| KPoint         (* winner-takes-all, refinement *)
+| KFilter (w : Z)      (* median filter_size, bilateral window int(3 sigma_space + 1) *)
+| KXcheck.
+Definition forget (s : step) : kstep :=
+  match s with
+  | SMc _ => KMc | SWta _ _ | SRefine _ _ => KPoint | SMedian w => KFilter w | SXcheck _ => KXcheck
+  end.
+Definition kstep_D (G : cfg) (k : kstep) : radii :=
+  match k with
+  | KMc => rad_mc G
+  | KCbca dist => mkRad (dist + 1) (dist + 1) (dist + 1)
+  | KPoint => rad0
+  | KFilter w => rad_filter w
+  | KXcheck => rad_xcheck G
+  end.
+Definition kstep_M (G : cfg) (k : kstep) : radii :=
+  match k with KXcheck => rad_xcheck_margin G | _ => kstep_D G k end.
+Fixpoint kpipe_rad (G : cfg) (ks : list kstep) : radii * radii :=
+  match ks with
+  | [] => (rad0, rad0)
+  | k :: rest => let '(Ds, Ms) := kpipe_rad G rest in (radd Ds (kstep_D G k), rmax Ms (radd Ds (kstep_M G k)))
+  end.
